@@ -68,6 +68,30 @@ Theorem C15_sync_call_refused :
 Proof. exact sync_call_refused. Qed.
 Print Assumptions C15_sync_call_refused.
 
+(* T6  exception instances used as data.  Values include [VExc e], an exception instance that was
+   *returned* (by a task, a ConstFuture, a proxy, an explicit asyncio_fn, or kept by an except clause),
+   and T1-T3 above quantify over those programs too.  Spelled out: (a) _gather returns the results of
+   members that all succeeded as they are, whatever they are; (b) if every member of a yielded
+   structure finished successfully, the yield delivers the structure of their values - it does not
+   raise; (c) conversely a yield raises e only if e is the TypeError of a non-future or some yielded
+   member itself finished by raising e; (d) the minimal case `yield [f.asynq()]` with `return exc`
+   in f; (e) the class is inhabited and both engines agree on it. *)
+Theorem C15_exception_value_is_data :
+  (forall vs, gather (map Ok vs) = inr vs) /\
+  (forall (s : ystruct (leaf prog)) fl, has_bad s = false ->
+      Forall (fun a => exists v, o3 (await_leaf drive a fl) = Ok v) (yleaves s) ->
+      o3 (resolve (await_leaf drive) s fl) = Ok (yval (ymap (fun a => value_of (o3 (await_leaf drive a fl))) s))) /\
+  (forall (s : ystruct (leaf prog)) fl e, o3 (resolve (await_leaf drive) s fl) = Err e ->
+      e = E_TYPEERROR \/ exists a, In a (yleaves s) /\ o3 (await_leaf drive a fl) = Err e) /\
+  (forall c e k fl, converted c ->
+      drive (Yield (YList [YLeaf (LCall c (Ret (VExc e)))]) k) fl =
+      (let r := drive (k (Ok (VList [VExc e]))) fl in
+       (o3 r, f3 r, EvBody (cid c) true :: EvDone (cid c) (Ok (VExc e)) :: t3 r))) /\
+  (wf ex_xprog /\ o3 (drive ex_xprog false) = fst (eval ex_xprog) /\
+   fst (eval ex_xprog) = Ok (VTuple [VList [VExc 7; VTuple [VExc 8; VExc 9]]; VExc 5])).
+Proof. exact exception_value_is_data. Qed.
+Print Assumptions C15_exception_value_is_data.
+
 (* the class is inhabited: a program with a failing child, an explicit asyncio_fn, a proxy, a dict,
    an except clause that yields again *)
 Theorem C15_class_inhabited : wf ex_prog /\ o3 (drive ex_prog false) = Ok (VList [VInt 7]).
